@@ -92,6 +92,42 @@ def _in_session(s, obj):
     return (st.persistent or st.pending) and obj not in s.deleted
 
 
+def generic_unsat(env, s):
+    """contradictory requests, whatever the mapping: during this sequence a live object was attached (relationship history
+    `added`) to an object that the same flush deletes — the final state would hold a reference to a deleted row, no
+    statement order can satisfy that.  Nothing is loaded: only the history of loaded attributes is read."""
+    from sqlalchemy import inspect
+    from sqlalchemy.orm.interfaces import MANYTOMANY, MANYTOONE, ONETOMANY
+    names = {id(o): k for k, o in env.items() if not k.startswith("_")}
+
+    def live(o):
+        st = inspect(o)
+        return (st.persistent or st.pending) and o not in s.deleted
+
+    for k, o in env.items():
+        if k.startswith("_"):
+            continue
+        st = inspect(o)
+        for rel in st.mapper.relationships:
+            if rel.key not in st.dict and rel.key not in getattr(st, "_pending_mutations", {}):
+                continue
+            if rel.direction is MANYTOONE and live(o) and st.dict.get(rel.key) is not None and inspect(st.dict[rel.key]).transient:
+                return f"{k}.{rel.key} refers to an object that never entered the session (the link can not be persisted, SAWarning)"
+            added = [a for a in (st.attrs[rel.key].history.added or ()) if a is not None]
+            if not added:
+                continue
+            if rel.direction is MANYTOONE:
+                if live(o) and any(a in s.deleted for a in added):
+                    return f"{k}.{rel.key} was set to an object that is deleted in the same flush"
+            elif rel.direction is ONETOMANY:
+                if o in s.deleted and any(live(a) for a in added):
+                    return f"{names.get(id(added[0]))} was appended to {k}.{rel.key} while {k} is deleted in the same flush"
+            elif rel.direction is MANYTOMANY:
+                if (o in s.deleted and any(live(a) for a in added)) or (live(o) and any(a in s.deleted for a in added)):
+                    return f"an association was added through {k}.{rel.key} to an object that is deleted in the same flush"
+    return None
+
+
 # ------------------------------------------------------------------------------------------------- worlds
 def _world_o2m(variant):
     """P 1--* C, bidirectional.  variant: nullable | cascade (NOT NULL, all+delete-orphan) | nocascade (NOT NULL) |
@@ -581,6 +617,7 @@ def replay_statements(w, gi, log):
     fks = _fks(md)
     shadow = graph_rows(w, gi)
     problems, events = [], []
+    w.cascaded = set()      # rows removed by the schema's ON DELETE CASCADE during the last replay
     for kind, table, plist, sql in log:
         if kind == "?":
             raise RuntimeError(f"unrecognised statement in a flush: {sql}")
@@ -615,6 +652,7 @@ def replay_statements(w, gi, log):
                                 v = tuple(r[c] for c in lc)
                                 if None not in v and v not in have:
                                     del shadow[ft][k]
+                                    w.cascaded.add((ft, k))
                                     changed = True
             else:
                 where = {}
@@ -657,11 +695,16 @@ def graph_vs_db(w, env, db):
         return o is not None and inspect(o).persistent
 
     byrow = {}
+    unlinked = set()   # objects with a loaded many-to-one to an object that never entered the session: that link is not persisted (SAWarning)
     for k, o in env.items():
         if not k.startswith("_"):
             mo = inspect(o).mapper
             for t in mo.tables:
                 byrow[(t.name, tuple(mo.primary_key_from_instance(o)))] = k
+            for rel in mo.relationships:
+                v = inspect(o).dict.get(rel.key)
+                if rel.direction is MANYTOONE and v is not None and inspect(v).transient:
+                    unlinked.add(k)
 
     def rowof(o, table):
         st = inspect(o)
@@ -677,6 +720,8 @@ def graph_vs_db(w, env, db):
         ident = m.primary_key_from_instance(o)
         base_row = db[m.tables[0].name].get(tuple(ident)) if None not in ident else None
         if st.persistent:
+            if any((t.name, tuple(ident)) in w.cascaded for t in m.tables):
+                continue     # removed by ON DELETE CASCADE in the database: the (passive_deletes) object is stale by design
             for t in m.tables:
                 pkv = tuple(ident)
                 if pkv not in db[t.name]:
@@ -719,7 +764,8 @@ def graph_vs_db(w, env, db):
                                 out.append(f"{names.get(id(x), x)} is in {k}.{rel.key} but row {rcol.table.name}{list(xid)}.{rcol.name} is "
                                            f"{None if row is None else row[rcol.name]!r}")
                         for xid, row in db[rcol.table.name].items():
-                            if row[rcol.name] == mine and xid not in pks and byrow.get((rcol.table.name, xid)) not in env["_fk_touched"]:
+                            if row[rcol.name] == mine and xid not in pks and byrow.get((rcol.table.name, xid)) not in env["_fk_touched"] \
+                                    and byrow.get((rcol.table.name, xid)) not in unlinked:
                                 out.append(f"row {rcol.table.name}{list(xid)}.{rcol.name} is {mine!r} but that object is not in the loaded {k}.{rel.key}")
                 elif rel.direction is MANYTOMANY:
                     members = [x for x in val if live(x)]
